@@ -1,25 +1,23 @@
 /-
 C03, o5m part — hostile o5m input never makes the decoder read outside the dataset / the
-reference table, and the decoder terminates.
+reference table, never violates a callee's precondition, and the decoder terminates.
 
-The model (`Osmium.O5m`, transcribed from o5m_input_format.hpp) makes every read of every
-decoder explicit: a read through a pointer that stands at the dataset's `end`, or that has left
-its 256-byte table slot, is the outcome `Res.oob`.  `o5m_reads_in_bounds` shows that outcome is
-unreachable for EVERY byte string, every chunking, every entity filter and both build modes.
+The model (`Osmium.O5m`, transcribed from o5m_input_format.hpp as repaired by 0243f9d, 638f5ce,
+d878353, 973cf14, 9d3a6e9) makes every read of every decoder explicit: a read through a pointer
+that stands at the dataset's `end`, or that has left its 256-byte table slot, is the outcome
+`Res.oob`; a call of `set_user(const char*)` with a name of ≥ 65535 bytes is `Res.ub`.
+`o5m_hostile_safe` shows: for EVERY byte string, every chunking, every entity filter and both
+build modes the outcome is a list of objects or an exception — never `oob`, never `ub`.
 
-Termination (`o5m_terminates`) is implicit: `decode` and all decoders are total Lean
-functions (structural recursion on the byte list or on explicit fuel = number of bytes, each
-iteration consuming at least one byte; the fuel error `Err.fuel` never shows up in the
-correspondence runs).
+Termination (`o5m_terminates`) is implicit: `decode` and all decoders are total Lean functions
+(structural recursion on the byte list or on explicit fuel = number of bytes, each iteration
+consuming at least one byte; the fuel error `Err.fuel` is one of the exceptions of the model and
+never shows up in the correspondence runs).
 
-What does NOT hold for every input (full statement `O5mHostileSafe` kept, refuted on witnesses
-that are replayed on the real Reader by tools/props/c03_o5m.py):
-  * `Ub.userTooLong`  user name of ≥ 65535 bytes: set_user() asserts / (NDEBUG) writes a wrapped
-                      16-bit size and the object layout is corrupt (SEGV on traversal)
-  * `Ub.ptrOverflow`  way/relation reference section length ≥ 2^63: `data + length` overflows
-  * `Ub.boxAssert`    bbox dataset with an undefined and unordered corner: assert in Box()
-  * `Ub.tableVarint`  a table string starting with ≥ 10 bytes ≥ 0x80 referenced as (uid,user):
-                      protozero::decode_varint gets a slot pointer with the dataset's `end`
+History: before the five repairs the statement was refuted by four witnesses (user name of 65535
+bytes, reference section length ≥ 2^63, bbox with an undefined unordered corner, table string
+starting with ≥ 10 bytes ≥ 0x80 referenced as user); they are kept below as regression examples
+(now: exceptions) and in corpus/C03/o5m_seeds.ops.
 -/
 import Osmium.Lemmas.O5mSafe
 
@@ -30,27 +28,42 @@ open Osmium.O5m Osmium.Wire Osmium.Osm
 /-- the table invariant the decoders rely on and maintain: no slot holds more than `max_length` bytes -/
 abbrev TableOk (t : Table) : Prop := SlotsOk t
 
-/-- Whole file, any chunking (non-empty chunks or not), any configuration: no out-of-bounds read. -/
-theorem o5m_reads_in_bounds_chunks (cfg : Cfg) (cs : List Bytes) : decodeChunks cfg cs ≠ .oob :=
-  decodeChunks_ne_oob cfg cs
+/-- C03 for o5m as the property states it — ∀ byte strings b (any length), both build modes, every
+    entity filter: decoding b yields objects or an exception derived from std::exception. -/
+theorem o5m_hostile_safe (cfg : Cfg) (b : Bytes) :
+    (∃ r, decode cfg b = .ok r) ∨ (∃ e, decode cfg b = .err e) :=
+  decodeChunks_safe cfg _
 
-/-- ∀ byte strings b: decoding b yields objects, an exception or a named undefined behaviour —
-    never a read outside the dataset or outside a table slot. -/
+/-- the same for every chunking of the input (with C06: the chunking does not matter at all) -/
+theorem o5m_hostile_safe_chunks (cfg : Cfg) (cs : List Bytes) :
+    (∃ r, decodeChunks cfg cs = .ok r) ∨ (∃ e, decodeChunks cfg cs = .err e) :=
+  decodeChunks_safe cfg cs
+
+/-- ∀ byte strings b: no read outside the dataset or outside a table slot. -/
 theorem o5m_reads_in_bounds (cfg : Cfg) (b : Bytes) : decode cfg b ≠ .oob :=
   decodeChunks_ne_oob cfg _
 
+/-- ∀ byte strings b: no callee precondition is violated (set_user's `strlen(user) < 65535`). -/
+theorem o5m_no_ub (cfg : Cfg) (b : Bytes) (u : Ub) : decode cfg b ≠ .ub u := by
+  rcases o5m_hostile_safe cfg b with ⟨r, h⟩ | ⟨e, h⟩ <;> rw [h] <;> simp
+
 /-- … and for every single decoder, from every reachable parser state (tables built by any
-    history of add/clear satisfy `TableOk`, see `o5m_table_ok`), on every payload. -/
+    history of add/clear satisfy `TableOk`, see `o5m_table_ok`), on every payload: a value or an
+    exception. -/
 theorem o5m_decoders_in_bounds (cfg : Cfg) (st : St) (h : TableOk st.tab) (d : Bytes) :
     decodeNode cfg st d ≠ .oob ∧ decodeWay cfg st d ≠ .oob ∧ decodeRelation cfg st d ≠ .oob ∧
-    decodeBbox cfg d ≠ .oob ∧ decodeTimestamp d ≠ .oob ∧ decodeInfo st d ≠ .oob ∧
+    decodeBbox d ≠ .oob ∧ decodeTimestamp d ≠ .oob ∧ decodeInfo st d ≠ .oob ∧
     decodeTags st.tab d ≠ .oob ∧
     (d ≠ [] → decodeUser st.tab d ≠ .oob ∧ decodeRole st.tab d ≠ .oob ∧ decodeString st.tab d ≠ .oob) :=
   ⟨(decodeNode_safe cfg st h d).ne_oob, (decodeWay_safe cfg st h d).ne_oob, (decodeRelation_safe cfg st h d).ne_oob,
-   (decodeBbox_safe cfg d).ne_oob, (decodeTimestamp_safe d).ne_oob, (decodeInfo_safe st h d).ne_oob,
+   (decodeBbox_safe d).ne_oob, (decodeTimestamp_safe d).ne_oob, (decodeInfo_safe st h d).ne_oob,
    (decodeTags_safe st.tab h d).ne_oob,
    fun hd => ⟨(decodeUser_safe st.tab h d hd).ne_oob, (decodeRole_safe st.tab h d hd).ne_oob,
               (decodeString_safe st.tab h d hd).ne_oob⟩⟩
+
+theorem o5m_decoders_no_ub (cfg : Cfg) (st : St) (h : TableOk st.tab) (d : Bytes) (u : Ub) :
+    decodeNode cfg st d ≠ .ub u ∧ decodeWay cfg st d ≠ .ub u ∧ decodeRelation cfg st d ≠ .ub u :=
+  ⟨(decodeNode_safe cfg st h d).ne_ub u, (decodeWay_safe cfg st h d).ne_ub u, (decodeRelation_safe cfg st h d).ne_ub u⟩
 
 /-- the decoders keep the table invariant (so it holds in every reachable state) -/
 theorem o5m_table_ok (cfg : Cfg) (st : St) (h : TableOk st.tab) (d : Bytes) :
@@ -64,53 +77,28 @@ theorem o5m_table_ok (cfg : Cfg) (st : St) (h : TableOk st.tab) (d : Bytes) :
   · intro o st' e; have := decodeRelation_safe cfg st h d; rw [e] at this; exact this
 
 /-- the precondition of the `assert(*dataptr != end)` in decode_string / decode_user /
-    decode_role is what the callers establish; without it the first read IS out of bounds -/
+    decode_role is what the callers establish; without it the first read IS out of bounds
+    (non-vacuity of the `oob` outcome) -/
 example (t : Table) : decodeString t [] = .oob := rfl
-
-/-! ### the full safety statement and its refutation -/
-
-/-- C03 for o5m as the property states it: objects or an exception, nothing else. -/
-def O5mHostileSafe : Prop :=
-  ∀ (cfg : Cfg) (b : Bytes), (∃ r, decode cfg b = .ok r) ∨ (∃ e, decode cfg b = .err e)
-
-def hdr : Bytes := [0xff, 0xe0, 0x04, 0x6f, 0x35, 0x6d, 0x32]
-
-/-- way 1, no info, reference section length 2^64-1 -/
-def witnessPtrOverflow : Bytes :=
-  hdr ++ [0x11, 0x0c, 0x02, 0x00, 0xff, 0xff, 0xff, 0xff, 0xff, 0xff, 0xff, 0xff, 0xff, 0x01, 0xfe]
-
-theorem witness_ptr_overflow : decode {} witnessPtrOverflow = .ub .ptrOverflow := by decide +kernel
-
-/-- bbox dataset (2147483647,0)-(0,0): bottom-left undefined, not ordered -/
-def witnessBoxAssert : Bytes :=
-  hdr ++ [0xdb, 0x08, 0xfe, 0xff, 0xff, 0xff, 0x0f, 0x00, 0x00, 0x00, 0xfe]
-
-theorem witness_box_assert : decode { assertions := true } witnessBoxAssert = .ub .boxAssert := by decide +kernel
-/-- without assertions the same file is decoded (the Box is stored as is) -/
-example : decode { assertions := false } witnessBoxAssert
-    = .ok ({ boxes := [(⟨2147483647, 0⟩, ⟨0, 0⟩)] }, []) := by decide +kernel
-
-/-- the user name length at which set_user() breaks, at the decoder level -/
-theorem witness_user_too_long (cfg : Cfg) : setUser cfg (List.replicate 65535 97) = .ub .userTooLong := by
+/-- non-vacuity of the `ub` outcome: the length at which set_user() breaks -/
+example (cfg : Cfg) : setUser cfg (List.replicate 65535 97) = .ub .userTooLong := by
   unfold setUser
   simp only [List.length_replicate]
   split <;> decide
 
-theorem hostile_safe_refuted : ¬ O5mHostileSafe := by
-  intro h
-  rcases h {} witnessPtrOverflow with ⟨r, hr⟩ | ⟨e, he⟩
-  · rw [witness_ptr_overflow] at hr; cases hr
-  · rw [witness_ptr_overflow] at he; cases he
+/-! ### the former witnesses, now exceptions (regression examples) -/
 
-/-- what remains true of C03 for every input: `o5m_reads_in_bounds` (no `oob`); the only other
-    non-exception outcomes are the four `Ub` kinds listed above (by the type of `Res`). -/
-theorem o5m_hostile_safe_partial (cfg : Cfg) (b : Bytes) :
-    (∃ r, decode cfg b = .ok r) ∨ (∃ e, decode cfg b = .err e) ∨ (∃ u, decode cfg b = .ub u) := by
-  cases h : decode cfg b with
-  | ok r => exact Or.inl ⟨r, rfl⟩
-  | err e => exact Or.inr (Or.inl ⟨e, rfl⟩)
-  | oob => exact (o5m_reads_in_bounds cfg b h).elim
-  | ub u => exact Or.inr (Or.inr ⟨u, rfl⟩)
+def hdr : Bytes := [0xff, 0xe0, 0x04, 0x6f, 0x35, 0x6d, 0x32]
+
+/-- way 1, no info, reference section length 2^64-1 -/
+example : decode {} (hdr ++ [0x11, 0x0c, 0x02, 0x00, 0xff, 0xff, 0xff, 0xff, 0xff, 0xff, 0xff, 0xff, 0xff, 0x01, 0xfe])
+    = .err .wayRefsTooLong := by decide +kernel
+
+/-- bbox dataset (2147483647,0)-(0,0): bottom-left undefined, not ordered — both build modes -/
+example : decode { assertions := true } (hdr ++ [0xdb, 0x08, 0xfe, 0xff, 0xff, 0xff, 0x0f, 0x00, 0x00, 0x00, 0xfe])
+    = .err .invalidBbox := by decide +kernel
+example : decode { assertions := false } (hdr ++ [0xdb, 0x08, 0xfe, 0xff, 0xff, 0xff, 0x0f, 0x00, 0x00, 0x00, 0xfe])
+    = .err .invalidBbox := by decide +kernel
 
 /-- non-vacuity: a valid one-node file decodes to an object -/
 example : decode {} (hdr ++ [0x10, 0x04, 0x02, 0x00, 0x04, 0x06, 0xfe])
